@@ -81,17 +81,29 @@ impl InlineCache {
         }
 
         // The slot was computed by a lookup that may have run user code afterwards (a getter or
-        // setter that deletes or redefines the property): only remember it if it still says where
-        // the property lives now.
+        // setter that deletes, redefines or shadows the property): only remember it if it still
+        // says where the property lives now, for the shape the receiver has now. The index alone
+        // is not enough: a getter that turns its property into a data property (or memoises the
+        // value on the receiver) leaves the index where it was.
         let key = self.name.clone().into();
-        let current = if slot.attributes.contains(SlotAttributes::PROTOTYPE) {
-            shape
-                .prototype()
-                .and_then(|prototype| prototype.borrow().shape().lookup(&key))
-        } else {
-            shape.lookup(&key)
+        let describes = |current: Slot| {
+            current.index == slot.index
+                && current.attributes
+                    == slot
+                        .attributes
+                        .difference(SlotAttributes::INLINE_CACHE_BITS)
         };
-        if current.is_none_or(|current| current.index != slot.index) {
+        let still_valid = if slot.attributes.contains(SlotAttributes::PROTOTYPE) {
+            // The receiver must not have got the property itself in the meantime.
+            shape.lookup(&key).is_none()
+                && shape
+                    .prototype()
+                    .and_then(|prototype| prototype.borrow().shape().lookup(&key))
+                    .is_some_and(describes)
+        } else {
+            shape.lookup(&key).is_some_and(describes)
+        };
+        if !still_valid {
             return;
         }
 
